@@ -265,6 +265,34 @@ def declare_first_rule(rep):
     rep.floor("C06.f", n, 6)
 
 
+def shadow_recheck_rule(rep, f):
+    rep.rule("C06.g", "a prefix found on an ancestor is reported only if it is not shadowed (DOM Level 3 Core Appendix B.2): in "
+             "DOMNodeImpl::lookupPrefix(namespaceURI, originalElement) every candidate prefix is re-checked by resolving it from the "
+             "element the lookup started at — each lookupNamespaceURI call in that function has the originalElement parameter as its "
+             "receiver — and the recursion to the ancestor passes originalElement on unchanged")
+    n = k = 0
+    for x in f.kind("call"):
+        fn = x["_fn"]
+        if fn["q"] != "DOMNodeImpl::lookupPrefix" or "DOMElement" not in fn.get("sig", ""):
+            continue
+        c = x["x"]
+        short = c[1].split("::")[-1]
+        if short == "lookupNamespaceURI":
+            n += 1
+            ok = bool(c[2]) and c[2][0] == "p" and c[2][2] == "originalElement"
+            rep.ob("C06.g", "lookupPrefix@lookupNamespaceURI:%d" % n, ok, "re-check from the original element" if ok else
+                   "DOMNodeImpl::lookupPrefix (line %s) re-checks the candidate prefix by resolving it from %s instead of the element the "
+                   "lookup started at: a nearer re-declaration of the prefix to another namespace is not seen, the shadowed prefix is "
+                   "returned" % (x.get("l"), sx_str(c[2]) if c[2] else "this"), "%s:%s" % (fn["file"], x.get("l", 0)))
+        elif short == "lookupPrefix" and len(c[3]) == 2:
+            k += 1
+            ok = c[3][1][0] == "p" and c[3][1][2] == "originalElement"
+            rep.ob("C06.g", "lookupPrefix@recursion:%d" % k, ok, "originalElement passed on" if ok else
+                   "DOMNodeImpl::lookupPrefix (line %s) recurses with %s as the original element" % (x.get("l"), sx_str(c[3][1])),
+                   "%s:%s" % (fn["file"], x.get("l", 0)))
+    rep.floor("C06.g", n, 2)
+
+
 def run(rep):
     f = core.library_facts()
     rep.units.update(os.path.relpath(t, core.REPO) for t in f.tus)
@@ -273,6 +301,7 @@ def run(rep):
     registry_rule(rep, f)
     nearest_rule(rep)
     declare_first_rule(rep)
+    shadow_recheck_rule(rep, f)
     diag.run(rep, f, "C06")
     rep.undecided += ["that the URI bound to each name is the right one (scoping arithmetic in ElemStack): value-level",
                       "DOM lookupNamespaceURI/lookupPrefix results"]
